@@ -11,9 +11,11 @@
 //!          L <c>                            String::to_lowercase of the single character c
 //! output:  D: `ok <regex text> <res>*` | `err` | `panic`
 //!             res = <matches><matches_prefix> ":" <matches_partially(q)>* ":" <matches_prefix(q)>*
+//!                   ":" <matches_partially(path)>
 //!             where q ranges over the prefixes of the path that end in '/' (ancestor dirs + '/')
 //!          S: `ok - <res>*` | `err` | `panic`
 //!             res = <inc.full><exc.full><name.full> ":" <inc.matches_dir(d)>* ":" <exc.matches_dir(d)>*
+//!                   ":" <inc.matches_dir(path)><exc.matches_dir(path)>
 //!             where d ranges over the ancestor directories of the path
 //!          F: `fp <prefix> <max_suffix_len or ->`
 //!          L: `low <string>`
@@ -88,6 +90,8 @@ fn direct(ci: bool, glob: &str, paths: &[String]) -> String {
         for q in slash_prefixes(p) {
             out.push(bit(pat.matches_prefix(q)));
         }
+        out.push(':');
+        out.push(bit(pat.matches_partially(p)));
     }
     out
 }
@@ -115,6 +119,9 @@ fn selector(ci: bool, base: &str, glob: &str, paths: &[String]) -> String {
         for d in ancestors(p) {
             out.push(bit(exc.matches_dir(&Path::from(d))));
         }
+        out.push(':');
+        out.push(bit(inc.matches_dir(&path)));
+        out.push(bit(exc.matches_dir(&path)));
     }
     out
 }
